@@ -6,7 +6,7 @@
 (*     [objs: <<[num, start, hdrEnd, end]>>]   ground truth, recorded while *)
 (*                                             writing / by byte search     *)
 (*   Records, one line per observation of the real code:                    *)
-(*     [d, lo, hi, res, mr, per]                                            *)
+(*     [d, lo, hi, whole, res, mr, per]     whole: no byte of d is missing  *)
 (* An event stands for every crash point lo..hi of file d (the harness      *)
 (* merges neighbouring crash points with identical observations, never      *)
 (* across an object boundary); per[i] = [l, b, r]: object i is listed at    *)
@@ -29,6 +29,7 @@ EventOK(objs, e) ==
   IN /\ Len(e.per) = n
      /\ e.lo <= e.hi
      /\ RefReaderSound(e.mr)
+     /\ RefReaderAvailable(e.whole, e.mr)
      /\ RefHolds(objs, e.lo, e.res, ls, s, v)
      /\ RefHolds(objs, e.hi, e.res, ls, s, v)
 CaseOK(c) == EventOK(Docs[c.d].objs, c)
